@@ -1,7 +1,7 @@
 (* C10/Properties.v — streamed parsing ignores chunking; the callback gets every byte.
    Statements only; proofs in C09/Proofs.v and C10/Proofs.v.  [drive], [spec]: C09/Model.v. *)
 From Coq Require Import ZArith List Bool.
-From RM Require Import Base.Word C08.Model C11.Model C09.Model C09.Grammar C09.Driver C09.Proofs C09.ProofsBytes C10.Model C10.Proofs C10.ProofsCache C10.ProofsAsync C09.ProofsFinish C09.ProofsFinal C10.Stream C10.ProofsStream C10.Driver C10.ProofsStreamTrace C10.ProofsBound C10.OldRefill C10.Band C10.ProofsFine C10.ProofsBandAll.
+From RM Require Import Base.Word C08.Model C11.Model C09.Model C09.Grammar C09.Driver C09.Proofs C09.ProofsBytes C10.Model C10.Proofs C10.ProofsCache C10.ProofsAsync C09.ProofsFinish C09.ProofsFinal C10.Stream C10.ProofsStream C10.Driver C10.ProofsStreamTrace C10.ProofsBound C10.OldRefill C10.Band C10.ProofsFine C10.ProofsBandAll C10.ReadFail C10.ProofsReadFail.
 From RM Require Gen.C10Stream.
 From RM Require C09.Pins.
 Import ListNotations.
@@ -459,3 +459,66 @@ Proof.
   split; [vm_compute; reflexivity|]. split; [vm_compute; reflexivity|].
   split; vm_compute; reflexivity.
 Qed.
+
+(* ------------------------------------------------------------------ a sync reader whose read() fails (C10/ReadFail.v) *)
+
+(* The run with a reader whose k-th read() call returns Err is the undisturbed run, or the undisturbed run stopped
+   at the head of the iteration that would have issued read number k (after its recovery block), ending with
+   SymbolError::LoadError.  All inputs, all schedules, any k. *)
+Theorem c10_read_error_is_cut :
+  forall (L : Type) (llen : L -> Z) (PS : Type) (init_ps : PS)
+         (recog : PS -> L -> PS + Z) (bump : PS -> PS) (lineno : PS -> Z)
+         (lines : list L) (tail : Z) (sch : list Z) (k : Z), 0 <= k ->
+    drive_rf L llen PS init_ps recog bump lineno lines tail sch k
+      = drive L llen PS init_ps recog bump lineno lines tail sch \/
+    exists (j : nat) sj,
+      iter_nat L llen PS recog bump lineno j (init_st L llen PS init_ps lines tail sch) = Next sj /\ nrd sj = k /\
+      drive_rf L llen PS init_ps recog bump lineno lines tail sch k
+        = Ret (RErr LOAD_ERROR 0, mid L llen PS bump sj).
+Proof. exact rf_drive_cut. Qed.
+Print Assumptions c10_read_error_is_cut.
+
+(* ... hence (all inputs): it returns within the fuel without a panic, the callback has been given a prefix of the
+   input, an Ok result is the Ok of the undisturbed run with everything handed to the callback (the failing read was
+   never issued), and otherwise the result is the undisturbed one or the load error: a failed read never yields a
+   table (the analogue of c10_stream_failed_body_never_ok for SymbolFile::parse). *)
+Theorem c10_read_error_total_prefix :
+  forall (L : Type) (llen : L -> Z) (PS : Type) (init_ps : PS)
+         (recog : PS -> L -> PS + Z) (bump : PS -> PS) (lineno : PS -> Z),
+    (forall l, 1 <= llen l) ->
+    forall (lines : list L) (tail : Z) (sch : list Z) (k : Z), 0 <= k ->
+    exists r s, drive_rf L llen PS init_ps recog bump lineno lines tail sch k = Ret (r, s) /\
+      cbsum s = total s /\ 0 <= total s <= input_len L llen lines tail /\
+      (forall p, r = ROk p -> cbsum s = input_len L llen lines tail /\
+                              drive L llen PS init_ps recog bump lineno lines tail sch = Ret (ROk p, s)) /\
+      (drive L llen PS init_ps recog bump lineno lines tail sch = Ret (r, s) \/ (r = RErr LOAD_ERROR 0 /\ nrd s = k)).
+Proof. exact rf_total. Qed.
+Print Assumptions c10_read_error_total_prefix.
+
+(* Lines shorter than 80 KiB: whatever the schedule and wherever the reader fails, the outcome is the schedule-free
+   verdict or the load error; in the second case the callback has been given complete lines only. *)
+Theorem c10_read_error_chunk_independent :
+  forall (L : Type) (llen : L -> Z) (PS : Type) (init_ps : PS)
+         (recog : PS -> L -> PS + Z) (bump : PS -> PS) (lineno : PS -> Z),
+    (forall l, 1 <= llen l) ->
+    forall (lines : list L) (tail : Z),
+    short_lines llen lines tail ->
+    forall (sch : list Z) (k : Z), 0 <= k ->
+    exists s,
+      drive_rf L llen PS init_ps recog bump lineno lines tail sch k
+        = Ret (spec L PS init_ps recog lineno lines tail, s) \/
+      (drive_rf L llen PS init_ps recog bump lineno lines tail sch k = Ret (RErr LOAD_ERROR 0, s) /\ nrd s = k /\
+       exists done todo, lines = done ++ todo /\ cbsum s = size L llen done).
+Proof. exact rf_short. Qed.
+Print Assumptions c10_read_error_chunk_independent.
+
+(* non-vacuity: the 62-byte example read 7 bytes at a time: 10 reads (9 with data, 1 EOF); a failure at read 0..9 is
+   the load error with 0 .. 55 callback bytes (complete lines), a failure at read 10 is never reached: Ok, 62 bytes *)
+Example c10_nonvacuous_read_error :
+  let o3 := run_rfail ex_lines 0 (repeat 7 20) 3 in
+  let o9 := run_rfail ex_lines 0 (repeat 7 20) 9 in
+  let o10 := run_rfail ex_lines 0 (repeat 7 20) 10 in
+  (o_kind o3, o_code o3, o_cb o3, o_nrd o3) = (1, 8, 15, 3) /\
+  (o_kind o9, o_code o9, o_nrd o9) = (1, 8, 9) /\
+  (o_kind o10, o_cb o10, o_nrd o10, o_files o10) = (0, 62, 10, 1).
+Proof. vm_compute. repeat split; reflexivity. Qed.
